@@ -189,7 +189,7 @@ func (p Place) MarshalJSON() ([]byte, error) {
 		notEmpty = JSONWriteIntProp(&b, "radius", p.Radius) || notEmpty
 	}
 	if len(p.Units) > 0 {
-		notEmpty = JSONWriteStringProp(&b, "radius", p.Units) || notEmpty
+		notEmpty = JSONWriteStringProp(&b, "units", p.Units) || notEmpty
 	}
 	if notEmpty {
 		JSONWrite(&b, '}')
